@@ -20,6 +20,8 @@ func init() {
 		Assumptions: []string{"math.Abs/Min/Max, time.Time.Sub/Before have their mathematical meaning"},
 		Run:         runC16,
 		Controls: []Control{
+			{Name: "held-fallback-inverted", File: "pkg/resource/collection.go", Old: "\t\t\t\tlast, ok := held[change.Id]\n\t\t\t\tif !ok {\n", New: "\t\t\t\tlast, ok := held[change.Id]\n\t\t\t\tif ok {\n", Expect: "the held value is used when there is one"},
+			{Name: "list-comparison-skips-the-first-element", File: "pkg/cmp/cmp.go", Old: "\tfor i := x.Len() - 1; i >= 0; i-- {\n", New: "\tfor i := x.Len() - 1; i > 0; i-- {\n", Expect: "R16.7"},
 			{Name: "collection-removal-keeps-held", File: "pkg/resource/collection.go", Old: "\t\t\tif c.equivalence != nil {\n\t\t\t\tlast, ok := held[change.Id]", New: "\t\t\tif c.equivalence != nil && change.NewValue != nil {\n\t\t\t\tlast, ok := held[change.Id]", Expect: "every delivery updates"},
 			{Name: "unknown-fields-last-occurrence-only", File: "pkg/cmp/cmp.go", Old: "\t\tmx[fnum] = append(mx[fnum], x[:n]...)", New: "\t\tmx[fnum] = x[:n:n]", Expect: "R16.1"},
 			{Name: "delete-kind-case", File: "pkg/cmp/cmp.go", Old: "\tcase pref.StringKind:\n\t\treturn x.String() == y.String()\n", New: "", Expect: "R16.1"},
@@ -63,6 +65,8 @@ func runC16(c *an.Ctx) {
 	c.Min("R16.2", 4)
 	c.Min("R16.3", 4)
 	c.Min("R16.6", 1)
+	r167(c, "R16.7")
+	c.Min("R16.7", 1)
 	c.Min("R16.4", 6)
 	c.Min("R16.5", 4)
 }
@@ -1568,6 +1572,43 @@ func r165held(c *an.Ctx, rule string) {
 					}
 				})
 			}
+			// the value looked up in the per-id reference is used exactly when the look-up found an entry; the fallback (the
+			// change's own old value) when it did not. The other way round the held value is never consulted
+			if len(mapVals)+len(mapCells) > 0 {
+				okPol, sawLookup := true, false
+				for _, lf := range an.PhiLeaves(cmpCall.Call.Args[0]) {
+					ex, isEx := lf.Val.(*ssa.Extract)
+					var lk *ssa.Lookup
+					if isEx {
+						lk, _ = ex.Tuple.(*ssa.Lookup)
+					}
+					fromLookup := lk != nil && lk.CommaOk && ex.Index == 0
+					if fromLookup {
+						sawLookup = true
+					}
+					for _, ce := range lf.Conds {
+						cond, pol := ce.If.Cond, ce.Branch
+						if u, isU := cond.(*ssa.UnOp); isU && u.Op == token.NOT {
+							cond, pol = u.X, !pol
+						}
+						okEx, isOkEx := cond.(*ssa.Extract)
+						if !isOkEx || okEx.Index != 1 {
+							continue
+						}
+						if l2, isL := okEx.Tuple.(*ssa.Lookup); !isL || !l2.CommaOk {
+							continue
+						}
+						// pol: the look-up's ok on this edge
+						if fromLookup != pol {
+							okPol = false
+						}
+					}
+				}
+				if sawLookup {
+					c.Check(okPol, rule, name+"|the held value is used when there is one", cmpCall.Pos(), "lookup value on ok, the change's old value otherwise",
+						"the value the subscriber holds is replaced by the change's own old value exactly when there IS a held entry (and the missing entry is used when there is none): the equivalence is judged against the previous stored value again, so a run of small steps is suppressed although the subscriber's value is no longer equivalent to the stored one")
+				}
+			}
 			// the other direction, for a reference kept per id in a map: every delivery made while an equivalence is
 			// configured records what the subscriber now holds (a removal forgets the entry), else a later change is
 			// compared with a value the subscriber no longer has
@@ -1702,4 +1743,95 @@ func stripConvs(v ssa.Value) ssa.Value {
 			return v
 		}
 	}
+}
+
+// r167: equalList compares EVERY pair of elements: the loop over the indices admits index 0 (and the last index). A
+// loop that stops above 0 never looks at the first element, so two lists that differ only there are "equal" - a
+// resource with such an equivalence never announces a change of the first item of a repeated field.
+func r167(c *an.Ctx, rule string) {
+	fn := mustFunc(c, rule, cmpPkg, "equator", "equalList")
+	if fn == nil {
+		return
+	}
+	name := "(pkg/cmp.equator).equalList"
+	n, ok := 0, true
+	var where ssa.Instruction
+	an.Instrs(fn, func(in ssa.Instruction) {
+		call, isCall := in.(*ssa.Call)
+		if !isCall || !call.Call.IsInvoke() || call.Call.Method.Name() != "Get" || len(call.Call.Args) != 1 {
+			return
+		}
+		idx := call.Call.Args[0]
+		var at int64
+		if b, isB := idx.(*ssa.BinOp); isB && (b.Op == token.ADD || b.Op == token.SUB) {
+			if k, isC := an.ConstInt(b.Y); isC {
+				idx = b.X
+				if b.Op == token.ADD {
+					at = -k
+				} else {
+					at = k
+				}
+			}
+		}
+		for _, e := range an.GuardingEdges(call) {
+			bo, isBO := e.If.Cond.(*ssa.BinOp)
+			if !isBO {
+				continue
+			}
+			var k int64
+			op := bo.Op
+			switch {
+			case bo.X == idx:
+				kk, isC := an.ConstInt(bo.Y)
+				if !isC {
+					continue
+				}
+				k = kk
+			case bo.Y == idx:
+				kk, isC := an.ConstInt(bo.X)
+				if !isC {
+					continue
+				}
+				k = kk
+				op = map[token.Token]token.Token{token.LSS: token.GTR, token.LEQ: token.GEQ, token.GTR: token.LSS, token.GEQ: token.LEQ, token.EQL: token.EQL, token.NEQ: token.NEQ}[bo.Op]
+			default:
+				continue
+			}
+			var at0 bool
+			switch op {
+			case token.GEQ:
+				at0 = at >= k
+			case token.GTR:
+				at0 = at > k
+			case token.LEQ:
+				at0 = at <= k
+			case token.LSS:
+				at0 = at < k
+			case token.NEQ:
+				at0 = at != k
+			case token.EQL:
+				at0 = at == k
+			default:
+				continue
+			}
+			if !e.Branch {
+				at0 = !at0
+			}
+			n++
+			if !at0 {
+				ok, where = false, e.If
+			}
+		}
+	})
+	pos := fn.Pos()
+	if where != nil {
+		pos = where.Pos()
+	}
+	// an ascending loop `for i := 0; i < n; i++` has no constant bound on the element access: nothing to decide there
+	if n == 0 {
+		c.Ok(rule, name+"|every index is compared, index 0 included", fn.Pos(), "no constant lower bound on the index")
+		return
+	}
+	c.Check(ok, rule, name+"|every index is compared, index 0 included", pos, fmt.Sprintf("%d bound(s) on the index admit 0", n),
+		"the loop over the list elements stops above index 0: the first elements of two lists are never compared, so lists that differ only there count as equal (proto.Equal says they differ) and a change of the first item of a repeated field is suppressed as a duplicate")
 }
